@@ -301,3 +301,56 @@ def install_h5_seams():
 
     rio.time = CLOCK
     _installed["h5"] = True
+
+
+# --------------------------------------------------------------------------
+# process-global tables of the library: pristine copies, guard and restore
+# --------------------------------------------------------------------------
+_PRISTINE = {}
+
+
+def _globals():
+    import nanite.fit
+    import nanite.rate.regressors
+    return {"nanite.fit.FP_DEFAULT": nanite.fit.FP_DEFAULT,
+            "nanite.fit.FP_RESULTS": nanite.fit.FP_RESULTS,
+            "nanite.rate.regressors.reg_dict":
+                nanite.rate.regressors.reg_dict}
+
+
+def _glob_digest(obj):
+    from .core import digest
+    return digest(repr(sorted(obj.items(), key=str)) if isinstance(obj, dict)
+                  else repr(obj))
+
+
+def snapshot_globals():
+    """Remember the library's module-level default tables as they are right
+    after import (once per process)."""
+    import copy
+    if _PRISTINE:
+        return
+    for name, obj in _globals().items():
+        _PRISTINE[name] = (copy.deepcopy(obj), _glob_digest(obj))
+
+
+def changed_global():
+    """Name of a module-level table that no longer equals its pristine copy
+    (an operation must not modify shared defaults), else None."""
+    for name, obj in _globals().items():
+        if _glob_digest(obj) != _PRISTINE[name][1]:
+            return name
+    return None
+
+
+def restore_globals():
+    """Fresh world per run."""
+    import copy
+    for name, obj in _globals().items():
+        if _glob_digest(obj) != _PRISTINE[name][1]:
+            pristine = copy.deepcopy(_PRISTINE[name][0])
+            if isinstance(obj, dict):
+                obj.clear()
+                obj.update(pristine)
+            else:
+                obj[:] = pristine
